@@ -21,4 +21,9 @@ def generator_family(tier='quick'):
     out.append(T('g:padleft_only', 'options {\n    GoPackage = "msg";\n    JavaPackage = "com.x";\n    FixedStringPadFromLeft = true;\n}\n\nroot packet Msg {\n    char[8] name,\n    zchar[4] z,\n    repeat char[3] codes,\n}\n'))
     out.append(T('g:nul_forms', 'options {\n    GoPackage = "msg";\n    JavaPackage = "com.x";\n}\n\nroot packet Msg {\n    zchar[8] a,\n    @leftPad(\'\\x00\')\n    char[8] b,\n    @rightPad(\'\\x00\')\n    char[8] c,\n    repeat zchar[2] d,\n}\n'))
     out.append(T('g:meta_shared', 'options {\n    GoPackage = "msg";\n    JavaPackage = "com.x";\n}\n\nMetaData M {\n    zchar[6] Sym `s`,\n    char[4] Code `c`,\n}\n\nroot packet Msg {\n    Sym a,\n    Sym b,\n    Code c,\n    @leftPad(\'0\')\n    Code d,\n}\n'))
+    # matches nested two deep, pairs listed in descending / mixed key order, list keys; packet names with acronyms
+    out.append(T('g:nested_match_desc', 'options {\n    GoPackage = "msg";\n    GoModule = "example.com/msg";\n    JavaPackage = "com.x";\n}\n\nroot packet Frame {\n    u16 MsgType,\n    match MsgType as Body {\n        1 : Order,\n        3 : Cancel,\n    },\n}\n\n'
+                 'packet Order {\n    u8 Kind,\n    match Kind as Detail {\n        2 : Limit,\n        1 : Market,\n        [9, 4] : Stop,\n    },\n}\n\npacket Cancel {\n    Order Orig,\n}\n\npacket Limit {\n    u64 Price,\n}\n\npacket Market {\n    u32 Qty,\n}\n\npacket Stop {\n    u64 Trigger,\n}\n'))
+    out.append(T('g:acronym_names', 'options {\n    GoPackage = "msg";\n    GoModule = "example.com/msg";\n    JavaPackage = "com.x";\n}\n\nroot packet Frame {\n    u16 MsgType,\n    match MsgType as Body {\n        1 : NewOrderACK,\n        2 : Logout,\n    },\n}\n\n'
+                 'packet NewOrderACK {\n    u32 OrderId,\n    repeat QuoteACK,\n    SBEHeader,\n}\n\npacket QuoteACK {\n    u64 Price,\n}\n\npacket SBEHeader {\n    u16 BlockLen,\n}\n\npacket Logout {\n    u32 UserId,\n}\n'))
     return out
